@@ -487,6 +487,51 @@ pub fn run(ctx: &Ctx) -> i32 {
         }
     });
     acc.merge(mega_acc);
+    // ill-formed units DEEP in a stream: behind 16 384 x k - 8 .. + 2 ASCII characters (k = 1, 2, 3), so that the
+    // bad unit is met at every position relative to the end of the consumer's 16 KiB request and of the
+    // re-encoder's own buffers - at the hook (large output buffers) and through the whole translation
+    let mut deep = vec![];
+    for k in 1..=3usize {
+        for d in 0..11usize {
+            for enc in ENCS {
+                deep.push((k * 16384 + d - 8, enc));
+            }
+        }
+    }
+    let deep_acc = crate::par::run(deep.len(), 4, |i, acc| {
+        let (pos, enc) = deep[i];
+        let bad_units: &[u32] = if enc.is16() { &[0xD800, 0xDC00, 0xDBFF] } else { &[0x110000, 0xD800, 0xFFFF_FFFF] };
+        for (bi, bad) in bad_units.iter().enumerate() {
+            let head = format!("k: \"{}", "x".repeat(pos - 4));
+            let mut bytes = enc.encode(&head, (i + bi) % 2 == 0);
+            if enc.is16() {
+                enc.unit16(*bad as u16, &mut bytes);
+            } else {
+                enc.unit32(*bad, &mut bytes);
+            }
+            let tail = enc.encode("yz\"\n", false);
+            let cut_tail = bi == 2 && i % 3 == 0; // sometimes the bad unit is the last thing in the stream
+            if !cut_tail {
+                bytes.extend_from_slice(&tail);
+            }
+            acc.count("illformed_units_deep_in_a_stream");
+            for out_buf in [16384usize, 4096, 65536] {
+                reencoder_case(enc, &bytes, 8192, out_buf, false, "deep_in_stream", acc);
+            }
+            for mode in [Mode::Slice, Mode::Reader(Sched::All), Mode::Reader(Sched::Fixed(4096))] {
+                for from in [Some(Fmt::Yaml), None] {
+                    acc.evals += 1;
+                    let o = run_mode(&bytes, &mode, from, Fmt::Json);
+                    if o.verdict.is_ok() {
+                        acc.violation(Violation { sig: format!("ill-formed {} deep in a stream: the translation succeeds", enc.name()), case: json!({"part": "illformed_deep", "encoding": enc.name(), "characters_before": pos, "bad_unit": format!("{bad:#x}"), "mode": mode.describe(), "detect": from.is_none(), "input_bytes": bytes.len()}), observed: format!("Ok; output [{}...] ({} bytes)", preview(&o.out[..o.out.len().min(40)], 40), o.out.len()), expected: "an error: the input is not well-formed".into() });
+                    } else {
+                        acc.count("illformed_deep_translation_refused");
+                    }
+                }
+            }
+        }
+    });
+    acc.merge(deep_acc);
     // streams shorter than the four bytes that encoding detection would like to see: one-character
     // documents, with and without the mark (document-less texts are left out: for them the UTF-8 slice
     // path differs from every other path - the recorded finding C02-yaml-documentless-stream)
@@ -511,11 +556,11 @@ pub fn run(ctx: &Ctx) -> i32 {
         }
     }
     ev::run_isolated("c07-enum", &["--tier".into(), ctx.tier.clone(), "--seed".into(), ctx.seed.to_string()], "exhaustive re-encoder enumeration", &mut acc);
-    let rule = format!("(a) {} generated YAML streams (1-3 documents, hostile scalars, every spelling feature) x one encoding in turn x [BOM, no BOM when the text starts with ASCII] x [slice, reader fixed(1..9), reader random] x [explicit, detected], compared with the same text in UTF-8; texts of tens of KiB with multi-byte characters around the read sizes; 2 texts of more than a million characters (one flow sequence, one quoted scalar) x 4 encodings x [reader whole, reader 64 KiB, slice] x [detected, explicit]; one-character streams; (b) exhaustive at the re-encoder hook: all 63 488 non-surrogate UTF-16 units, all 1 048 576 surrogate pairs, all 1 112 064 UTF-32 scalar values, both byte orders, with/without BOM, input buffer capacities and output buffer sizes varied ({} variants each), against a std-based reference decoder; ill-formed classes: EVERY ordered pair of surrogate units that is not a well-formed pair (thorough: all 3 145 728; quick: a sixteenth of the first units x all second units), every surrogate value as lone lead / lead+non-trail / lead+lead / lone trail / reversed pair, truncated units, every UTF-32 value in D800..DFFF, values >= 0x110000; distinct non-trivial = distinct texts plus distinct enumeration blocks", n_texts, if ctx.thorough() { 11 } else { 2 });
+    let rule = format!("(a) {} generated YAML streams (1-3 documents, hostile scalars, every spelling feature) x one encoding in turn x [BOM, no BOM when the text starts with ASCII] x [slice, reader fixed(1..9), reader random] x [explicit, detected], compared with the same text in UTF-8; texts of tens of KiB with multi-byte characters around the read sizes; 2 texts of more than a million characters (one flow sequence, one quoted scalar) x 4 encodings x [reader whole, reader 64 KiB, slice] x [detected, explicit]; one-character streams; ill-formed units behind 16 384 x k - 8 .. + 2 characters (k = 1..3) x 4 encodings x 3 bad units, at the hook with 4 / 16 / 64 KiB output buffers and through the translation (slice, reader; named, detected); (b) exhaustive at the re-encoder hook: all 63 488 non-surrogate UTF-16 units, all 1 048 576 surrogate pairs, all 1 112 064 UTF-32 scalar values, both byte orders, with/without BOM, input buffer capacities and output buffer sizes varied ({} variants each), against a std-based reference decoder; ill-formed classes: EVERY ordered pair of surrogate units that is not a well-formed pair (thorough: all 3 145 728; quick: a sixteenth of the first units x all second units), every surrogate value as lone lead / lead+non-trail / lead+lead / lone trail / reversed pair, truncated units, every UTF-32 value in D800..DFFF, values >= 0x110000; distinct non-trivial = distinct texts plus distinct enumeration blocks", n_texts, if ctx.thorough() { 11 } else { 2 });
     let mut extra = serde_json::Map::new();
     extra.insert("reencoder_enumeration_complete".into(), json!(true));
     ev::finish(
-        Finish { ctx, level: "exploration", rule, assumptions: vec!["reference decoder: char::decode_utf16 / char::from_u32 from the standard library".into(), "for failing texts only the verdict class and prefix-comparable output are compared (error positions are byte offsets of what the parser saw)".into()], extra, exhaustive: false, min_distinct: 1000, must_reach: vec![("surrogate_pairs_enumerated".into(), 2 * 1_048_576), ("utf32_scalars_enumerated".into(), 2 * 1_112_064), ("illformed_streams".into(), 10000), ("illformed_surrogate_pairs_enumerated".into(), 100000), ("translation_level_slice".into(), 1000), ("ascii_only_texts".into(), 20), ("detected_variants".into(), 500), ("YAML_SLICE_REENCODE_PATH".into(), 500), ("texts_of_more_than_a_million_characters".into(), 8)] },
+        Finish { ctx, level: "exploration", rule, assumptions: vec!["reference decoder: char::decode_utf16 / char::from_u32 from the standard library".into(), "for failing texts only the verdict class and prefix-comparable output are compared (error positions are byte offsets of what the parser saw)".into()], extra, exhaustive: false, min_distinct: 1000, must_reach: vec![("surrogate_pairs_enumerated".into(), 2 * 1_048_576), ("utf32_scalars_enumerated".into(), 2 * 1_112_064), ("illformed_streams".into(), 10000), ("illformed_surrogate_pairs_enumerated".into(), 100000), ("translation_level_slice".into(), 1000), ("ascii_only_texts".into(), 20), ("detected_variants".into(), 500), ("YAML_SLICE_REENCODE_PATH".into(), 500), ("texts_of_more_than_a_million_characters".into(), 8), ("illformed_deep_translation_refused".into(), 1000)] },
         acc,
     )
 }
